@@ -35,7 +35,9 @@ class App:
             self.S.block_until(lambda: self.flags.get(flag), "app-wait", flag)
         chunks = list(prog.get("body", [b"ok"]))
         headers = [("Content-Type", "text/plain")]
-        if prog.get("cl", True):
+        if prog.get("declare") is not None:
+            headers.append(("Content-Length", str(prog["declare"])))
+        elif prog.get("cl", True):
             headers.append(("Content-Length", str(sum(map(len, chunks)))))
         if prog.get("echo"):
             chunks = [body]
@@ -67,7 +69,7 @@ class App:
 def reference_wire(key, adj_kw, programs, stream):
     """Wire of a sequential run of the same pipeline (one fixed schedule, one
     read), used as the byte-for-byte expectation.  Cached per scenario."""
-    k = repr((key, sorted(adj_kw.items()), stream))
+    k = repr((key, sorted(adj_kw.items()), stream, sorted((a, sorted(b.items())) for a, b in programs.items())))
     if k in _ref_cache:
         return _ref_cache[k]
     saved = venv.W
